@@ -174,7 +174,7 @@ Take(r, f) == IF "StopAtFrameEnd" \in Bug /\ r = "parse" /\ f.k # "count" THEN 1
 
 RECURSIVE ReadItems(_, _, _, _)
 \* acc = [i |-> next field index, used |-> parts consumed, attrs |-> Seq, ok |-> BOOLEAN]
-\* (tail recursive with an accumulator: TLC re-evaluates LET bodies at every use)
+\* (tail recursive with an accumulator)
 ReadItems(r, w, n, acc) ==
   IF n = 0 \/ ~acc.ok THEN acc
   ELSE IF acc.i > Len(w) THEN [acc EXCEPT !.ok = FALSE]
